@@ -111,6 +111,16 @@ func (t *v10pTarget) Set(ctx context.Context, source target.TargetSource) (*sdcp
 			return &sdcpb.SetDataResponse{}, nil
 		}
 		docs = append(docs, v10pNormXml(doc, i&1 != 0, i&2 != 0, i&4 != 0))
+		if i == 0 && verifrt.Param("debug", 0) == 1 && !verifrt.Symbolic() {
+			doc.Indent(1)
+			x, _ := doc.WriteToString()
+			ds := []string{}
+			for _, d := range dels {
+				ds = append(ds, vPathID(d))
+			}
+			verifrt.Observe("debug-xml", x)
+			verifrt.Observe("debug-proto-deletes", strings.Join(ds, " ; "))
+		}
 	}
 	t.xml = append(t.xml, docs)
 	return &sdcpb.SetDataResponse{}, nil
@@ -514,6 +524,21 @@ func v10pPickScenario() *vScenario {
 			v10pDkKeyLeaf("x1", "y2", "key1", "x1"),
 			v10pDkKeyLeaf("x1", "y2", "key2", "y2"),
 		}, owners: []string{"A"}}
+	case 16:
+		// a NESTED list with two entries (interface lo1, subinterfaces 0 and 1), single owner: one
+		// entry changes while its sibling stays as it is
+		sub := func(idx, leaf string) *vLeaf {
+			entry := "interface[name=lo1]/subinterface[index=" + idx + "]"
+			return &vLeaf{id: entry + "/" + leaf, entry: entry,
+				elems: []*sdcpb.PathElem{vPE("interface", "name", "lo1"), vPE("subinterface", "index", idx), vPE(leaf)},
+				strs:  []string{"interface", "lo1", "subinterface", idx, leaf}}
+		}
+		subKey := func(idx string) *vLeaf {
+			l := sub(idx, "index")
+			l.keyOf, l.keyVal, l.keyUint = l.entry, idx, true
+			return l
+		}
+		sc = &vScenario{leaves: []*vLeaf{sub("0", "description"), sub("1", "description"), subKey("0"), subKey("1"), vIfKeyLeaf("lo1")}, owners: []string{"A"}}
 	case 14:
 		// as 13 with a single owner
 		sc = &vScenario{leaves: []*vLeaf{vRangeLeaf(), vIfLeaf("lo1", "mtu", true), vIfKeyLeaf("lo1")}, owners: []string{"A"}}
@@ -609,7 +634,8 @@ func VerifEncodingsAgree() {
 		for e := range entries {
 			hadDefiner, hasDefiner, unmanaged := false, false, false
 			for _, l := range sc.leaves {
-				if l.entry != e || l.keyOf != "" {
+				if !vIsPrefix(e, l.entry) || l.keyOf != "" {
+					// (leaves of nested entries are leaves below e as well)
 					continue
 				}
 				managed := false
@@ -661,6 +687,9 @@ func VerifEncodingsAgree() {
 			for _, id := range f.entryIDs {
 				if leftUnmanaged && !entries[id] {
 					verifrt.Assert(false, "C10-form-xml-list-entry-key-values/entry-left-with-unmanaged-leaf")
+				}
+				if !entries[id] {
+					verifrt.Observe("xml-entry-id-unknown", id)
 				}
 				verifrt.Assert(entries[id], "C10-form-xml-list-entry-key-values")
 			}
